@@ -222,6 +222,13 @@ pub fn blocking_waits() -> u64 {
     g.threads[me].blocking_waits
 }
 
+/// Name of the calling virtual thread, if it was given one
+pub fn current_thread_name() -> Option<String> {
+    let (rt, me) = ctx();
+    let g = rt.inner.lock().unwrap();
+    g.threads[me].name.clone()
+}
+
 /// Number of live (unfinished) threads with the given name
 pub fn live_threads_named(name: &str) -> usize {
     let (rt, _) = ctx();
